@@ -14,11 +14,13 @@ import (
 	"fmt"
 	"io"
 	"os"
+	"os/signal"
 	"path/filepath"
 	"sort"
 	"strings"
 	"sync"
 	"sync/atomic"
+	"syscall"
 	"time"
 
 	"google.golang.org/protobuf/proto"
@@ -308,6 +310,7 @@ var storesCaseCounter int
 
 func newStoreEnv(req map[string]any) (*storeEnv, error) {
 	setOpTimeout(req)
+	liftFileSizeLimit()
 	scratch, _ := req["scratch"].(string)
 	if scratch == "" {
 		return nil, fmt.Errorf("scratch directory missing")
@@ -381,11 +384,11 @@ func quiesce(dir string) {
 	}
 }
 
-// opTimeout is the time after which an operation is reported as hanging (request field "timeout_s", default 20 s).
-var opTimeout = 20 * time.Second
+// opTimeout is the time after which an operation is reported as hanging (request field "timeout_s", default 10 s).
+var opTimeout = 10 * time.Second
 
 func setOpTimeout(req map[string]any) {
-	opTimeout = 20 * time.Second
+	opTimeout = 10 * time.Second
 	if f, ok := req["timeout_s"].(float64); ok && f > 0 {
 		opTimeout = time.Duration(f * float64(time.Second))
 	}
@@ -649,7 +652,35 @@ func (b *procBackend) next() (int, string) {
 	if f == "" && b.every != "" && b.n >= b.from {
 		f = b.every
 	}
+	if strings.HasPrefix(f, "fsize:") {
+		// "the disk is full from now on": no regular file of this process can grow beyond the given size any more
+		// (write(2) stores what fits and then fails with EFBIG). Lifted again before the audit.
+		var lim uint64
+		fmt.Sscanf(f, "fsize:%d", &lim)
+		setFileSizeLimit(lim)
+		b.log.add(map[string]any{"e": "disk-full", "p": b.pid, "n": b.n, "limit": lim})
+		f = ""
+	}
 	return b.n, f
+}
+
+var fsizeHard uint64
+
+func setFileSizeLimit(cur uint64) {
+	var rl syscall.Rlimit
+	if fsizeHard == 0 {
+		signal.Ignore(syscall.SIGXFSZ)
+		if syscall.Getrlimit(syscall.RLIMIT_FSIZE, &rl) == nil {
+			fsizeHard = rl.Max
+		}
+	}
+	_ = syscall.Setrlimit(syscall.RLIMIT_FSIZE, &syscall.Rlimit{Cur: cur, Max: fsizeHard})
+}
+
+func liftFileSizeLimit() {
+	if fsizeHard != 0 {
+		_ = syscall.Setrlimit(syscall.RLIMIT_FSIZE, &syscall.Rlimit{Cur: fsizeHard, Max: fsizeHard})
+	}
 }
 
 func resName(ok bool, err error) string {
@@ -871,6 +902,31 @@ func auditCache(cacheDir string) (problems []string, stats map[string]int) {
 	return problems, stats
 }
 
+// auditBlobs checks only content addressing of a cache directory: every visible cas/<d> hashes to d, every target/<k>
+// unmarshals with change hash k.
+func auditBlobs(cacheDir string) []string {
+	problems := []string{}
+	for name, content := range dirFiles(filepath.Join(cacheDir, "cas")) {
+		if strings.HasPrefix(name, "tmp-") {
+			continue
+		}
+		if hashing.HashBytes(content) != name {
+			problems = append(problems, fmt.Sprintf("cas/%s: %d bytes that do not hash to the name", name, len(content)))
+		}
+	}
+	for name, content := range dirFiles(filepath.Join(cacheDir, "target")) {
+		if strings.HasPrefix(name, "tmp-") {
+			continue
+		}
+		tr := &gen.TargetResult{}
+		if err := proto.Unmarshal(content, tr); err != nil || tr.ChangeHash != name {
+			problems = append(problems, "target/"+name+": does not unmarshal to a result with that change hash")
+		}
+	}
+	sort.Strings(problems)
+	return problems
+}
+
 // visibleKeys lists the visible (non tmp-*) names of a namespace directory.
 func visibleKeys(cacheDir, ns string) []string {
 	out := []string{}
@@ -1012,6 +1068,7 @@ func init() {
 		// uploadFiles / WriteOutputs return on the first error while the other uploads are still running:
 		// wait until every backend operation that was started has returned before looking at the cache
 		tl.waitIdle()
+		liftFileSizeLimit()
 		res := map[string]any{"outcomes": outcomes, "events": tl.events}
 		problems, stats := auditCache(env.cache)
 		res["audit"] = problems
@@ -1299,6 +1356,31 @@ func (c *callRec) Get(ctx context.Context, path, key string) (io.ReadCloser, err
 	return io.NopCloser(bytes.NewReader(data)), nil
 }
 
+// peek opens an entry through the wrapped backend, reads a single byte and closes the reader (a consumer that stops early).
+func (c *callRec) peek(ctx context.Context, path, key string) error {
+	c.log.inflight.Add(1)
+	defer c.log.inflight.Add(-1)
+	kl := c.log.lockFor(path, key)
+	kl.Lock()
+	defer kl.Unlock()
+	lb, _ := c.tiers(path, key)
+	rc, err := c.inner.Get(ctx, path, key)
+	ev := map[string]any{"e": "get", "p": c.pid, "m": c.mach, "ns": path, "k": key, "lbefore": lb, "peek": true}
+	if err == nil {
+		buf := make([]byte, 1)
+		_, _ = rc.Read(buf)
+		rc.Close()
+		ev["r"] = "yes"
+		ev["contentOk"] = true
+	} else {
+		ev["r"] = "err"
+	}
+	l, r := c.tiers(path, key)
+	ev["l"], ev["rem"] = l, r
+	c.log.add(ev)
+	return err
+}
+
 func (c *callRec) Set(ctx context.Context, path, key string, content io.Reader) error {
 	c.log.inflight.Add(1)
 	defer c.log.inflight.Add(-1)
@@ -1480,11 +1562,67 @@ func init() {
 			tc := caching.NewTargetResultCache(backend)
 			step := map[string]any{"m": mach, "do": do, "p": pid}
 			results := []any{}
-			idx, _ := hm["targets"].([]any)
-			for _, ti := range idx {
-				t := targets[int(ti.(float64))]
-				r := map[string]any{"target": t.name}
-				switch do {
+			// operations of this process: [kind, target index]; "mixed" steps list them explicitly, so that one process
+			// (one Cas with its memo) can restore one target and then build another
+			type stepOp struct {
+				kind string
+				ti   int
+			}
+			ops := []stepOp{}
+			if do == "mixed" {
+				lst, _ := hm["ops"].([]any)
+				for _, o := range lst {
+					p, _ := o.([]any)
+					if len(p) == 2 {
+						k, _ := p[0].(string)
+						f, _ := p[1].(float64)
+						ops = append(ops, stepOp{k, int(f)})
+					}
+				}
+			} else {
+				idx, _ := hm["targets"].([]any)
+				for _, ti := range idx {
+					ops = append(ops, stepOp{do, int(ti.(float64))})
+				}
+			}
+			for _, op := range ops {
+				t := targets[op.ti]
+				r := map[string]any{"target": t.name, "kind": op.kind}
+				switch op.kind {
+				case "peek":
+					// a consumer that stops reading early: open every blob the cached result references through the
+					// wrapper itself (not through the recorder), read one byte, close
+					cached, lerr := tc.Load(env.ctx, t.key)
+					if lerr != nil {
+						r["outcome"] = "miss"
+						break
+					}
+					cr, _ := backend.(*callRec)
+					if cr == nil {
+						r["outcome"] = "miss"
+						break
+					}
+					digs := []string{}
+					for _, o := range cached.Outputs {
+						if f := o.GetFile(); f != nil {
+							digs = append(digs, f.GetDigest().GetHash())
+						}
+						if d := o.GetDirectory(); d != nil {
+							digs = append(digs, d.GetTreeDigest().GetHash())
+						}
+					}
+					perr, hung := withTimeout(opTimeout, func() error {
+						for _, dg := range digs {
+							if err := cr.peek(env.ctx, "cas", dg); err != nil {
+								return err
+							}
+						}
+						return nil
+					})
+					r["outcome"] = errClass(perr)
+					if hung {
+						r["outcome"] = "hang"
+					}
 				case "build", "build-local":
 					// the command ran: its outputs are in the workspace
 					if err := env.resetWorkspace(req["ws"]); err != nil {
@@ -1503,7 +1641,7 @@ func init() {
 					if hung {
 						r["outcome"] = "hang"
 					}
-					if do == "build-local" && werr == nil {
+					if op.kind == "build-local" && werr == nil {
 						// what a run without remote leaves in the local cache, as seen by the model
 						for _, o := range res.Outputs {
 							if f := o.GetFile(); f != nil {
@@ -1564,6 +1702,19 @@ func init() {
 			tl.waitIdle()
 			step["results"] = results
 			step["dangling"] = remoteClosure(remote)
+			// content audit of every machine's local cache (blobs hash to their names, results decode and are closed
+			// is NOT required locally: a local cache may hold a result whose blobs are only remote)
+			la := map[string]any{}
+			for name := range machines {
+				saved := config.Global.Root
+				config.Global.Root = filepath.Join(env.dir, "root-"+name)
+				dir := config.Global.GetWorkspaceCacheDirectory()
+				config.Global.Root = saved
+				if bad := auditBlobs(dir); len(bad) > 0 {
+					la[name] = bad
+				}
+			}
+			step["local_audit"] = la
 			steps = append(steps, step)
 		}
 		remote.mu.Lock()
@@ -1614,6 +1765,31 @@ func (r *recS3) ObjectExists(ctx context.Context, bucket, key string) (bool, err
 func init() {
 	register("store.s3path", func(req map[string]any) (any, error) {
 		root := b2s(req["root"])
+		if layout, _ := req["layout"].(string); layout != "" {
+			// the workspace root is a real directory <base>/srv/ci/<name>; with layout "symlink" the component
+			// <base>/srv is a symbolic link to <base>/mnt/disk2 (same workspace_root string, other real path)
+			base, _ := req["base"].(string)
+			name := b2s(req["name"])
+			if base == "" || name == "" {
+				return nil, fmt.Errorf("base/name missing")
+			}
+			os.RemoveAll(base)
+			defer os.RemoveAll(base)
+			if layout == "symlink" {
+				if err := os.MkdirAll(filepath.Join(base, "mnt", "disk2", "ci", name), 0755); err != nil {
+					return nil, err
+				}
+				if err := os.Symlink(filepath.Join(base, "mnt", "disk2"), filepath.Join(base, "srv")); err != nil {
+					return nil, err
+				}
+			} else if err := os.MkdirAll(filepath.Join(base, "srv", "ci", name), 0755); err != nil {
+				return nil, err
+			}
+			root = filepath.Join(base, "srv", "ci", name)
+			if _, err := os.Stat(root); err != nil {
+				return nil, err
+			}
+		}
 		config.Global = config.WorkspaceConfig{Root: "/nonexistent", WorkspaceRoot: root, LogLevel: "error", LogOutputPath: "stderr"}
 		ctx := console.WithLogger(context.Background(), console.InitLogger())
 		client := &recS3{}
@@ -1638,6 +1814,7 @@ func init() {
 		for _, cl := range client.calls {
 			out = append(out, []any{s2b(cl[0]), s2b(cl[1])})
 		}
-		return map[string]any{"ok": true, "objects": out, "ws": s2b(strings.Trim(config.GetWorkspaceCachePrefix(root), "/"))}, nil
+		return map[string]any{"ok": true, "objects": out, "ws": s2b(strings.Trim(config.GetWorkspaceCachePrefix(root), "/")), "root": s2b(root),
+			"local_cache_dir_name": s2b(filepath.Base(config.Global.GetWorkspaceRootDir()))}, nil
 	})
 }
